@@ -77,6 +77,9 @@ def config_violations():
         ("cfg.missing_queries_path", {"set": {"queries_path": "nope_queries"}}, "InvalidConfiguration", ["nope_queries"]),
         ("cfg.missing_base_client_file", {"set": {"base_client_file_path": "nope_base.py", "base_client_name": "MyBase"}}, "InvalidConfiguration", ["nope_base.py"]),
         ("cfg.missing_file_to_include", {"set": {"files_to_include": ["nope_inc.py"]}}, "InvalidConfiguration", ["nope_inc.py"]),
+        # "~" is not expanded by the tool: the literal paths do not exist (the harness's HOME does hold such files)
+        ("cfg.missing_file_to_include_tilde", {"set": {"files_to_include": ["~/extra_mod.py"]}}, "InvalidConfiguration", ["~/extra_mod.py"]),
+        ("cfg.missing_schema_path_tilde", {"set": {"schema_path": "~/schema.graphql"}}, "InvalidConfiguration", ["~/schema.graphql"]),
         ("cfg.target_path_not_dir", {"set": {"target_package_path": "pyproject.toml"}}, "InvalidConfiguration", ["pyproject.toml"]),
         ("cfg.unknown_include_comments", {"set": {"include_comments": "sometimes"}}, "InvalidConfiguration", ["sometimes"]),
         ("cfg.scalar_without_type", {"set": {"scalars": {"DT": {"parse": "x.y"}}}}, "MissingConfiguration", ["type"]),
@@ -343,6 +346,12 @@ def run_case(case, scratch):
     os.environ["VF_EMPTY_VAR"] = ""
     os.environ["VF_SET_VAR"] = "Bearer tok"
     os.environ["VF_SET_VAR2"] = "second"
+    home = os.path.join(scratch, "home")
+    os.makedirs(home, exist_ok=True)
+    for name, text in (("extra_mod.py", "X = 1\n"), ("schema.graphql", BASE_SDL)):
+        with open(os.path.join(home, name), "w") as fh:
+            fh.write(text)
+    os.environ["HOME"] = home
     strategy_name = case["strategy"]
     base_section = {"schema_path": "schema.graphql"}
     if strategy_name == "client":
